@@ -58,7 +58,7 @@ def run(ctx):
             th = threading.Thread(target=eval_shards)
             th.start()
         env = vlib.env_offline()
-        env["H13_LEGS"] = "oracle"
+        env["H13_LEGS"] = "oracle,disk"
         rc, out = vlib.run([h13, ocases, ctx.tier], timeout=3300, env=env)
         ctx.log((out1.strip().splitlines() or ["h13 (ids,reid): no output"])[-1])
         ctx.log((out.strip().splitlines() or ["h13 (oracle): no output"])[-1])
@@ -96,6 +96,11 @@ def run(ctx):
             or min((summary.get("oracle_steps_with_2plus_diagnostics_of_phase") or {"x": 0}).values()) == 0):
         ctx.violation("oracle machinery is blind: the edits had no observable effect on diagnostics/Sierra",
                       {"summary": summary}, found_input=False)
+    if ran and summary.get("disk_histories", 0) > 0 and (
+            summary.get("disk_steps_required_to_match", 0) == 0 or summary.get("disk_distinct_outputs", 0) < 3
+            or summary.get("disk_steps_with_sierra_program", 0) == 0):
+        ctx.violation("oracle machinery is blind: the on-disk histories had no observable effect", {"summary": summary},
+                      found_input=False)
     if corr_bad and not oracle_bad:
         legs = sorted({os.path.basename(s).split("_")[0] for s, _ in corr_bad})
         ctx.violation(
@@ -126,9 +131,20 @@ def run(ctx):
         "property_theorems": names,
         "print_assumptions": (pr or {}).get("axioms", []),
         "closed_assumption_blocks": (pr or {}).get("closed_blocks", 0),
-        "evaluations": summary.get("oracle_steps", 0) + summary.get("ids_files", 0) + summary.get("reid_cases", 0),
+        "evaluations": summary.get("oracle_steps", 0) + summary.get("disk_steps", 0) + summary.get("ids_files", 0)
+        + summary.get("reid_cases", 0),
         "distinct_nontrivial": summary.get("oracle_distinct_project_states", 0),
-        "rule": "oracle: histories are generated from VERIF_SEED over five projects (corpus/C13/gen: diagnostics that "
+        "rule": "on-disk histories (leg disk): a scratch project (two crate roots, modules, a directory module) whose files "
+                "are really created / deleted / rewritten / renamed on disk between the steps - `mod x;` declared before "
+                "its file exists, file missing at the first query then created, deleted then re-created with other "
+                "content, a module gaining a submodule file, the second crate root rewritten - interleaved with override "
+                "sets (also of files that do not exist on disk) and unsets (falling back to the disk). Each disk step is "
+                "followed by (a) nothing, (b) an unrelated override edit or (c) a no-op re-set of an override. The live "
+                "database is REQUIRED to equal a fresh database on the same disk + overrides after every step that "
+                "contains an input change ((b), (c), every override set/unset): disk_steps_required_to_match. After (a) "
+                "salsa may serve the memoized answer (no input changed, no new revision): compared, counted in "
+                "disk_only_steps_stale, never an alarm. "
+                "oracle: histories are generated from VERIF_SEED over five projects (corpus/C13/gen: diagnostics that "
                 "originate in generated code - inline macros println!/format!/assert!/array!, user-defined macros, derives "
                 "on a type lacking the traits, generate_trait, `?` - whose histories (2 of 7) mostly edit INSIDE the macro "
                 "invocations / attributes: a space moved inside (same extent and length), delete-then-insert elsewhere "
